@@ -513,7 +513,7 @@ class CIMachine(FormatMachine):
     def check_forest(self, s):
         """(a) structure, (b) findability - evaluated by walking the live forest from the top
         through public attributes only."""
-        if s.tainted:
+        if s.tainted or not self.watching("C11"):
             return
         model = s.model
         vv, _ = forest_validity(model)
